@@ -115,7 +115,7 @@ def run_rebuild(case):
         rec = {"id": case["id"], "op": "rebuild", "clauses": case["clauses"], "version": v, "P": P,
                "status": "ok", "count": -1, "files": [], "written": [], "sources_unchanged": True,
                "metas_unchanged": True, "outside_ops": [], "outside_changed": [], "denied": [], "runs": 1,
-               "present_after": 0, "ntorrents": len(trees)}
+               "present_after": 0, "ntorrents": len(trees), "stream_order": []}
         # 1. original payloads (only to create the metafiles from), then removed
         mdir = os.path.join(sbx, "metas")
         os.makedirs(mdir)
@@ -146,6 +146,8 @@ def run_rebuild(case):
                 else:
                     fname = (f.get("meta_path") or f["path"])[-1]
                 for k, c in enumerate(f.get("cands", [])):
+                    if f["size"] == 0 and c["cls"] in ("shorter", "decoy_all", "decoy_some", "decoy_head"):
+                        c["cls"] = "intact"        # for an empty file these are the empty file itself
                     sd = sdirs[c.get("search", 0) % len(sdirs)]
                     sub = ["k%02d-t%d-f%d" % (k, ti, fi)] + ["deep"] * c.get("depth", 0)
                     data = candidate_bytes(tree, f, c["cls"], k, P)
@@ -264,6 +266,21 @@ def run_rebuild(case):
                                    "copy_of_candidate": bool(is_copy),
                                    "length_ok": key is not None and len(b) == trees[key[0]]["files"][key[1]]["size"]})
         rec["present_after"] = sum(1 for x in rec["files"] if x["after"] not in ("absent", "n/a"))
+        # order of the files in the v1 stream of the (first) metafile: indexes into rec["files"]
+        rec["stream_order"] = list(range(1, len(trees[0]["files"]) + 1))
+        try:
+            from .core import bdecode_strict
+            with open(mpaths[0], "rb") as fh:
+                rootn, _, _ = bdecode_strict(fh.read())
+            fl = rootn.get(b"info").get(b"files")
+            if fl is not None and not case.get("hostile"):
+                idx = {tuple(f.get("meta_path") or f["path"]): n + 1 for n, f in enumerate(trees[0]["files"])}
+                order = [idx.get(tuple(c.val.decode() for c in e.get(b"path").val)) for e in fl.val
+                         if e.get(b"attr") is None]
+                if all(o is not None for o in order) and len(order) == len(idx):
+                    rec["stream_order"] = order
+        except Exception:
+            pass
         return rec
     finally:
         rm(sbx)
